@@ -737,7 +737,7 @@ func c07LexerP(maxLen int, prefixes []string) *core.Space {
 			s := str(i)
 			sched.ChanOnly = true
 			defer func() { sched.ChanOnly = false }()
-			ex := &sched.Explorer{Bound: -1, MaxExec: 5000}
+			ex := &sched.Explorer{Bound: -1, MaxExec: 5000, MaxTime: 75 * time.Second}
 			outcomes := map[string][]int{}
 			var viol *core.Violation
 			var out string
